@@ -27,6 +27,7 @@ inductive Val where
   | init                 -- the receiver's previous content (zero for `new(T)`)
   | defv (e : String)    -- a `def=` value
   | opt (pos : Nat)      -- the value passed to the option at position `pos` of the call
+  | zero                 -- the zero value of the field's type (nil, 0, "", false), passed to an option explicitly
   deriving Repr, DecidableEq
 
 abbrev State := String → Val
